@@ -15,7 +15,7 @@ var Rules = []report.Rule{
 	{ID: "L1", Floor: 14, Props: []string{"C18"}, Text: "every method of a stack type (slice of an emitter interface that implements that interface) is one range over the receiver invoking the same-named method once on each element with all parameters in order, nothing else"},
 	{ID: "L2", Floor: 4, Props: []string{"C18"}, Text: "every XInit of the emitter stack builds a stack with exactly one e.XInit(same arguments) per element, in order"},
 	{ID: "L3", Floor: 3, Props: []string{"C18"}, Text: "EmitterStack: 0 -> no-op emitter, 1 -> the argument, n -> every argument exactly once (nested stacks spliced)"},
-	{ID: "L4", Floor: 2, Props: []string{"C04"}, Text: "*PanicError implements error and has an exported interface-typed field Value"},
+	{ID: "L4", Floor: 3, Props: []string{"C04"}, Text: "*PanicError implements error, has an exported interface-typed field Value, and is opaque to errors.Is/As/Unwrap (the scheduler loop tests job errors with errors.Is on its own goroutine, where nothing recovers: the recovered value's methods must not be reachable from there)"},
 }
 
 func Run(repo *load.Repo, s *report.Sink) error {
@@ -42,6 +42,19 @@ func Run(repo *load.Repo, s *report.Sink) error {
 			}
 		}
 		s.Check(good, "L4", "PanicError.Value is an exported empty-interface field", "", "", "PanicError has no exported `Value any` field")
+		// opaque to error-chain walks: errors.Is / errors.As call Unwrap, Is and As of every error in the chain; the
+		// scheduler loop does that (errors.Is(err, sentinel)) with every job error on its own goroutine
+		var chain []string
+		for _, t := range []types.Type{pe.Type(), types.NewPointer(pe.Type())} {
+			ms := types.NewMethodSet(t)
+			for i := 0; i < ms.Len(); i++ {
+				switch n := ms.At(i).Obj().Name(); n {
+				case "Unwrap", "Is", "As":
+					chain = append(chain, n)
+				}
+			}
+		}
+		s.Check(len(chain) == 0, "L4", "PanicError is opaque to errors.Is/As/Unwrap", "", "method set has no Unwrap/Is/As", fmt.Sprintf("PanicError declares %v: an error-chain walk (the scheduler loop's errors.Is on every job error, on a goroutine without recover) now runs methods of the value a user function panicked with; if one of them panics the process dies instead of the directive returning a *PanicError", chain))
 	} else {
 		s.Unk("L4", "PanicError", "", "type not found")
 	}
